@@ -53,6 +53,24 @@ def cases(dll, kind, npk, win, seed):
     return out
 
 
+def bg_cases(dll, win, seed):
+    """the responder is in the middle of receiving a long broadcast from a third node (an OLDER receive session, not due for a
+    long time) when the originator of a connection-mode transfer falls silent: that younger session is given up in time all
+    the same"""
+    sc0 = base(dll, 'p2p', 3, win, seed)
+    sc0['stacks'].append(dict(dll=dll, max_cmdt=1, subs=[dict(cid=3, filt=0x50)], cas=[]))
+    n_bg = 7 * 55 if dll == 'j1939-21' else 60 * 290          # about 2.8 s of broadcast
+    sc0['script'].append(dict(t=200, s=2, op='send', a=[0, 0xFE, 0x77, 6, 0x50, dict(seed=seed + 7, len=n_bg)]))
+    sc0['script'].sort(key=lambda e: e['t'])
+    sc0['bg'] = True
+    res0 = scen.run(sc0)
+    per0 = sum(1 for e in res0.trace if e[2] == 'tx' and e[0] < sc0['tf'] and e[1] == 0)
+    out = []
+    for k in range(2, per0 + 1):
+        out.append((dict(sc0, faults=[dict(silent=[0, k], until=sc0['tf'] - 500_000)]), None))
+    return out
+
+
 def is_abort(e, dll):
     pf = (e[3] >> 16) & 0xFF
     if dll == 'j1939-21':
@@ -67,11 +85,13 @@ def abort_reason(e, dll):
 def oracle(sc, res):
     v = []
     dll, tf = sc['dll'], sc['tf']
-    sends = [e for e in sc['script'] if e['op'] == 'send']
+    sends = [e for e in sc['script'] if e['op'] == 'send' and e['s'] == 0]
     p1 = tuple(payload(sends[0]['a'][5]))
     p2 = tuple(payload(sends[1]['a'][5]))
     # 1. exact payload or nothing
-    first = [e for e in res.trace if e[2] == 'cb' and e[1] == 1 and e[0] < tf]
+    a0 = sends[0]['a']
+    pg = oracle_tp.expected_pgn(a0[0], a0[1], a0[2])      # callbacks of THIS transfer (a background broadcast has another PGN)
+    first = [e for e in res.trace if e[2] == 'cb' and e[1] == 1 and e[0] < tf and e[5] == pg]
     for e in first:
         if tuple(e[7]) != p1:
             v.append(dict(kind='corrupt-or-truncated-delivery', t=e[0], length=len(e[7]), expected_length=len(p1), faults=sc['faults']))
@@ -80,7 +100,7 @@ def oracle(sc, res):
     # 2. both stacks give the session up within the bound after the last frame of the first exchange
     frames = [e for e in res.trace if e[2] in ('tx',) and e[0] < tf]
     probes = [e for e in res.trace if e[2] == 'probe' and e[0] < tf]
-    if frames:
+    if frames and not sc.get('bg'):
         # the clock of the bound starts at the last frame that is not itself an abort caused by giving up
         lastf = max(e[0] for e in frames if not is_abort(e, dll)) if any(not is_abort(e, dll) for e in frames) else frames[-1][0]
         limit = lastf + BOUND[dll] + 2 * PROBE + 2000
@@ -93,7 +113,7 @@ def oracle(sc, res):
             break
     # 3. aborts
     aborts = [e for e in frames if is_abort(e, dll)]
-    acked = any(e[2] == 'cb' and e[1] == 0 and e[0] < tf for e in res.trace)
+    acked = any(e[2] == 'cb' and e[1] == 0 and e[0] < tf and e[5] == pg for e in res.trace)
     if sc['kind'] == 'bam':
         if aborts:
             v.append(dict(kind='abort-in-broadcast-transfer', faults=sc['faults']))
@@ -109,8 +129,15 @@ def oracle(sc, res):
                 quiet, kf = f['silent']
                 other = 1 - quiet
                 if (other == 0 and not eoms_sent) or (other == 1 and kf >= 2 and not first):
-                    if not any(e[1] == other and abort_reason(e, dll) == 3 for e in aborts):
+                    mine = [e for e in aborts if e[1] == other and abort_reason(e, dll) == 3]
+                    if not mine:
                         v.append(dict(kind='no-timeout-abort-from-the-side-left-waiting', side=other, faults=sc['faults']))
+                    else:
+                        # ... and in time: within the bound after the last frame of THIS transfer that reached the bus
+                        pair = {a0[4] & 0xFF, a0[2] & 0xFF}
+                        mine_fr = [e[0] for e in frames if e[1] in (0, 1) and not is_abort(e, dll) and {e[3] & 0xFF, (e[3] >> 8) & 0xFF} == pair]
+                        if mine_fr and mine[0][0] > max(mine_fr) + BOUND[dll] + 2 * PROBE + 2000:
+                            v.append(dict(kind='timeout-abort-later-than-the-bound', side=other, last_frame=max(mine_fr), abort_at=mine[0][0], faults=sc['faults']))
         for e in aborts:
             if abort_reason(e, dll) not in (1, 2, 3):
                 v.append(dict(kind='abort-reason', reason=abort_reason(e, dll)))
@@ -123,7 +150,7 @@ def oracle(sc, res):
     ret2 = [r for ev, r in res.returns if ev['op'] == 'send' and ev['t'] == tf]
     if ret2 != [True]:
         v.append(dict(kind='follow-up-refused', ret=str(ret2), faults=sc['faults']))
-    second = [e for e in res.trace if e[2] == 'cb' and e[1] == 1 and e[0] >= tf]
+    second = [e for e in res.trace if e[2] == 'cb' and e[1] == 1 and e[0] >= tf and e[5] == pg]
     if [tuple(e[7]) for e in second] != [p2]:
         v.append(dict(kind='follow-up-not-delivered-intact', n=len(second), faults=sc['faults']))
     if not all(res.empty):
@@ -148,7 +175,9 @@ def explore(out, tier, dlls, limit=None):
     runs = []
     n = 0
     for dll, kind, npk, win in shapes(tier, dlls):
-        for sc, res in cases(dll, kind, npk, win, seed=npk * 31 + (7 if win == 'all' else win)):
+        seed = npk * 31 + (7 if win == 'all' else win)
+        extra = bg_cases(dll, win, seed) if (kind == 'p2p' and npk == 3 and win == 1) else []
+        for sc, res in cases(dll, kind, npk, win, seed=seed) + extra:
             if res is None:
                 res = scen.run(sc)
             n += 1
